@@ -370,7 +370,7 @@ func (cms *CountMinSketchRedis) setMatrix(matrix [][]uint64) error {
 		local key = KEYS[1]
 		local columns = tonumber(ARGV[1])
 		local index = 2
-		local rows = #ARGV / columns
+		local rows = (#ARGV - 1) / columns
 		for i=1, rows do
 			local row = {}
 			local rowKey = key .. tostring(i-1)
